@@ -64,6 +64,7 @@ def run_kani_group(prop, obls, tier, seed, jobs):
             if f not in files:
                 files.append(f)
     names = [o["id"] for o in obls]
+    by_id = {o["id"]: o for o in obls}
     order = list(names)
     random.Random(seed).shuffle(order)
     meta = {}
@@ -76,8 +77,24 @@ def run_kani_group(prop, obls, tier, seed, jobs):
                                     "scratch patch pattern missing: " + "; ".join(s.missing)))
             return outs, meta
         tmo = max(o.get("timeout", 600) for o in obls)
-        res, raw, dt = kani_engine.run_harnesses(s, order, jobs=jobs, harness_timeout=tmo)
-        meta["kani_wall_s"] = round(dt, 1)
+        batch = [n for n in order if not by_id[n].get("unwindset")]
+        special = [n for n in order if by_id[n].get("unwindset")]
+        res = {}
+        t_k = time.time()
+        if batch:
+            res, raw, dt = kani_engine.run_harnesses(s, batch, jobs=jobs, harness_timeout=tmo)
+        if special:
+            # per-loop bounds (selected by function name at run time): one cargo-kani run each
+            from concurrent.futures import ThreadPoolExecutor
+            def one(n):
+                r, sel = kani_engine.run_with_unwindset(s, n, by_id[n]["unwindset"],
+                                                        harness_timeout=by_id[n].get("timeout", 900))
+                return n, r, sel
+            with ThreadPoolExecutor(max_workers=max(1, min(jobs // 2, len(special)))) as ex:
+                for n, r, sel in ex.map(one, special):
+                    res[n] = r
+                    meta.setdefault("unwindsets", {})[n] = sel
+        meta["kani_wall_s"] = round(time.time() - t_k, 1)
         for o in obls:
             r = res[o["id"]]
             need_stub = "alloc::fmt::format" if o.get("needs_format_stub", True) else None
